@@ -94,6 +94,10 @@ CONSTS = [
 STR_CONSTS = [
     # C01
     ("C01_STATIC_KEY_DOMAIN", NOISE, r'const\s+STATIC_KEY_DOMAIN\s*:\s*&str\s*=\s*"([^"\\\\]*)"\s*;'),
+    ("C01_TLS_SIGNING_PREFIX", "src/crypto/tls/certificate.rs",
+     r'const\s+P2P_SIGNING_PREFIX\s*:\s*\[u8;\s*\d+\]\s*=\s*\*b"([^"\\\\]*)"\s*;'),
+    ("C01_WEBRTC_PROLOGUE_PREFIX", "src/transport/webrtc/opening.rs",
+     r'fn\s+noise_prologue[^{]*\{\s*const\s+PREFIX\s*:\s*&\[u8\]\s*=\s*b"([^"\\\\]*)"\s*;'),
 ]
 
 
